@@ -775,7 +775,91 @@ Qed.
 Lemma flat_values_self : forall n v, In v (flat_values n v).
 Proof.
   intros n v. destruct n as [|n]; [left; reflexivity|].
-  destruct v; simpl; try (left; reflexivity); apply in_or_app; right; left; reflexivity.
+  destruct v; simpl; try (left; reflexivity); apply in_or_app; right;
+    first [left; reflexivity | apply in_or_app; right; left; reflexivity].
+Qed.
+
+(* ---- the hooks look inside containers, dictionary KEYS included (repaired code) ---- *)
+Lemma flat_values_VDict : forall f l, flat_values (S f) (VDict l) =
+  flat_map (fun kv => flat_values f (fst kv)) l ++ flat_map (fun kv => flat_values f (snd kv)) l ++ [VDict l].
+Proof. reflexivity. Qed.
+Lemma flat_values_VList : forall f l, flat_values (S f) (VList l) = flat_map (flat_values f) l ++ [VList l].
+Proof. reflexivity. Qed.
+Lemma flat_values_VTuple : forall f l, flat_values (S f) (VTuple l) = flat_map (flat_values f) l ++ [VTuple l].
+Proof. reflexivity. Qed.
+
+Theorem C05_flat_values_dict_iff : forall f l r,
+  In r (flat_values (S f) (VDict l)) <->
+  r = VDict l \/ exists k x, In (k, x) l /\ (In r (flat_values f k) \/ In r (flat_values f x)).
+Proof.
+  intros f l r. rewrite flat_values_VDict, !in_app_iff, !in_flat_map. split.
+  - intros [[[k x] [H1 H2]]|[[[k x] [H1 H2]]|[H|[]]]].
+    + right. exists k, x. split; [exact H1|left; exact H2].
+    + right. exists k, x. split; [exact H1|right; exact H2].
+    + left. symmetry; exact H.
+  - intros [H|[k [x [H1 [H2|H2]]]]].
+    + right; right; left. symmetry; exact H.
+    + left. exists (k, x). split; assumption.
+    + right; left. exists (k, x). split; assumption.
+Qed.
+
+Theorem C05_hook_sees_dict_keys : forall f k x l r,
+  In r (flat_values f k) -> In r (flat_values (S f) (VDict ((k, x) :: l))).
+Proof.
+  intros f k x l r H. apply C05_flat_values_dict_iff. right. exists k, x. split; [left; reflexivity|left; exact H].
+Qed.
+Theorem C05_hook_sees_dict_values : forall f k x l r,
+  In r (flat_values f x) -> In r (flat_values (S f) (VDict ((k, x) :: l))).
+Proof.
+  intros f k x l r H. apply C05_flat_values_dict_iff. right. exists k, x. split; [left; reflexivity|right; exact H].
+Qed.
+
+(* a macro used as a dictionary key of a bound value is checked by finalize *)
+Corollary C05_finalize_rejects_bad_macro_key : forall s ck p k sc ev x l, locked s = false ->
+  cget ck (config s) = Some p -> sget k p = Some (VDict ((VRef sc "gin.macro" ev, x) :: l)) ->
+  (amem ckey_eqb (scope_str sc, "gin.macro") (config s) = false \/ ev = false) ->
+  exists s', finalize s = (s', Raise "ValueError").
+Proof.
+  intros s ck p k sc ev x l L Hc Hk Hbad. apply finalize_builtin_hooks; [exact L|]. left.
+  destruct (macros_hook_ok s) eqn:M; [|reflexivity]. exfalso.
+  assert (Hin : In (VRef sc "gin.macro" ev) (flat_values 50 (VDict ((VRef sc "gin.macro" ev, x) :: l)))).
+  { apply (C05_hook_sees_dict_keys 49). apply flat_values_self. }
+  destruct (C05_macros_hook_spec s M _ _ _ _ _ Hc _ Hk Hin) as [Ha He].
+  destruct Hbad as [Hb|Hb]; congruence.
+Qed.
+
+(* ---- the code before the repair: dictionary keys were not visited ---- *)
+Fixpoint flat_values_orig (fuel : nat) (v : value) : list value :=
+  match fuel with
+  | O => [v]
+  | S f =>
+      match v with
+      | VList l | VTuple l => flat_map (flat_values_orig f) l ++ [v]
+      | VDict l => flat_map (fun kv => flat_values_orig f (snd kv)) l ++ [v]
+      | _ => [v]
+      end
+  end.
+Definition macros_hook_ok_orig (s : state) : bool :=
+  forallb (fun t => forallb (fun x =>
+             match x with
+             | VRef sc "gin.macro" ev => amem ckey_eqb (scope_str sc, "gin.macro") (config s) && ev
+             | _ => true
+             end) (flat_values_orig 50 (snd t))) (all_config_values s).
+
+(* the store `m.f.b = {%undefined: 0}`: the original hook accepted it (finalize succeeded and the error only
+   surfaced when f was called); the repaired hook rejects it and finalize raises ValueError *)
+Theorem C05_orig_finalize_ignored_dict_keys :
+  let sg := {| s_args := ["b"]; s_defaults := []; s_varargs := false; s_kwonly := []; s_varkw := false |} in
+  let pf := {| c_sel := "m.f"; c_kind := KProbe; c_sig := sg; c_allow := []; c_deny := []; c_method := false |} in
+  let s := run_top 50 (setup [pf]) [OParse "f.b" (VDict [(VMacro "undefined", VInt 0)])] in
+  config s = [(("", "m.f"), [("b", VDict [(VRef ["undefined"] "gin.macro" true, VInt 0)])])] /\
+  locked s = false /\
+  macros_hook_ok_orig s = true /\
+  macros_hook_ok s = false /\
+  exists s', finalize s = (s', Raise "ValueError").
+Proof.
+  vm_compute. split; [reflexivity|]. split; [reflexivity|]. split; [reflexivity|]. split; [reflexivity|].
+  eexists. reflexivity.
 Qed.
 
 Corollary C05_macros_hook_toplevel : forall s, macros_hook_ok s = true ->
@@ -855,6 +939,10 @@ Print Assumptions C05_unbound_macro_raises.
 Print Assumptions C05_macros_hook_spec.
 Print Assumptions C05_macros_hook_iff.
 Print Assumptions C05_finalize_rejects_bad_macro.
+Print Assumptions C05_flat_values_dict_iff.
+Print Assumptions C05_hook_sees_dict_keys.
+Print Assumptions C05_finalize_rejects_bad_macro_key.
+Print Assumptions C05_orig_finalize_ignored_dict_keys.
 Print Assumptions C07_oper_update_get.
 Print Assumptions C07_oper_update_other.
 Print Assumptions C07_configurable_defaults_spec.
